@@ -54,7 +54,7 @@ def expected_groups(user):
 
 
 class Identity:
-    def __init__(self, world, user, exe_name, argv_tail, exec_capable=False):
+    def __init__(self, world, user, exe_name, argv_tail, exec_capable=False, euid0=False):
         self.world = world
         self.user = user
         ent = [u for u in USERS if u[0] == user][0]
@@ -67,8 +67,18 @@ class Identity:
         shutil.copy(HELPER_BIN, self.exe.encode("utf-8", "surrogateescape") if isinstance(self.exe, str) else self.exe)
         os.chmod(self.exe, 0o755)
         self.argv = [self.exe] + list(argv_tail)
-        self.proc = subprocess.Popen(self.argv, executable=self.exe, user=self.uid, group=self.gid, extra_groups=[],
-                                     stdin=subprocess.PIPE if exec_capable else subprocess.DEVNULL, stdout=subprocess.DEVNULL, stderr=subprocess.DEVNULL)
+        if euid0 and self.uid != 0:
+            # real uid = the user, EFFECTIVE uid 0 (what a set-uid-root program looks like in /proc): the kernel record made at connect time
+            # carries the real uid, and that is what decides
+            uid, gid = self.uid, self.gid
+
+            def become():
+                os.setgroups([]); os.setresgid(gid, gid, gid); os.setresuid(uid, 0, 0)
+            self.proc = subprocess.Popen(self.argv, executable=self.exe, preexec_fn=become,
+                                         stdin=subprocess.PIPE if exec_capable else subprocess.DEVNULL, stdout=subprocess.DEVNULL, stderr=subprocess.DEVNULL)
+        else:
+            self.proc = subprocess.Popen(self.argv, executable=self.exe, user=self.uid, group=self.gid, extra_groups=[],
+                                         stdin=subprocess.PIPE if exec_capable else subprocess.DEVNULL, stdout=subprocess.DEVNULL, stderr=subprocess.DEVNULL)
         self.pid = self.proc.pid
         self.elevated = self.uid == 0
         self.cmdline = " ".join(self.argv)
@@ -141,8 +151,8 @@ class World:
                 time.sleep(0.02)
         raise common.Inconclusive("proxy listener did not come up")
 
-    def identity(self, user="root", exe_name="helper", argv_tail=(), exec_capable=False):
-        i = Identity(self, user, exe_name, argv_tail, exec_capable)
+    def identity(self, user="root", exe_name="helper", argv_tail=(), exec_capable=False, euid0=False):
+        i = Identity(self, user, exe_name, argv_tail, exec_capable, euid0)
         self.identities.append(i)
         return i
 
